@@ -103,6 +103,13 @@ def all_nodes(pool):
     return out
 
 
+def membership(nodes):
+    return [NODE_REGISTRY.get(n.id) is n for n in nodes]
+
+
+MAY_UNREGISTER = ("detach", "detach_self", "replace-ok", "replace-child-with-other-tree", "dict-roundtrip-after-detach")
+
+
 def snapshot(nodes):
     snap = []
     for n in nodes:
@@ -263,6 +270,7 @@ def run_history(rec, u, b, hist):
     for step, (name, args) in enumerate(hist):
         nodes = all_nodes(pool) + [n for r in produced if isinstance(r, ASTNode) for n in [r] + [i.node for i in r.dfs()]]
         snap = snapshot(nodes)
+        member = membership(nodes)
         rec.count("transitions"); rec.count("traces"); rec.count("evaluations")
         try:
             res = (u[name] if name in u else b[name])(*[pool[i] for i in args])
@@ -273,6 +281,10 @@ def run_history(rec, u, b, hist):
         except Exception as e:  # noqa: BLE001
             rec.outcome(f"{name.split('-')[0]}:{type(e).__name__}")
         after = snapshot(nodes)
+        if name not in MAY_UNREGISTER and membership(nodes) != member:
+            # registry membership of an existing node may change only as specified for detach and replace
+            rec.violation(f"C10|membership|{name.split('-')[0]}", dict(case, step=step), f"operation {name} changed the registry membership of an existing node")
+            return
         if after != snap:
             diff = [(type(nodes[i]).__name__, [a[0] for a, c in zip(snap[i][4:], after[i][4:]) if a != c] or "id/content_id/hash") for i in range(len(nodes)) if snap[i] != after[i]]
             rec.violation(f"C10|frame|{name.split('-')[0]}", dict(case, step=step), f"operation {name} modified existing node(s): {diff[:3]}")
